@@ -10,6 +10,8 @@ pub mod terminal_manager;
 pub mod workers;
 
 mod util;
+#[cfg(oxidd_verif)]
+mod verif_sync;
 
 #[cfg(target_pointer_width = "16")]
 compile_error!("oxidd-manager-index assumes that for all `x: u32`, `x as usize` does not truncate");
